@@ -128,6 +128,28 @@ def directed_C16(tier, seed):
     return H
 
 
+def directed_C13(tier, seed):
+    """queries with extra constraints are hypothetical: for every (constraint, extra) pair of the alphabet, on every
+    replacement / hybrid / VSA class: add, ask with the extra constraints, then ask the same without them (and on a branch
+    taken afterwards)"""
+    from .w_solver import get_alphabet
+    A = get_alphabet({"W": 3, "alpha": "approx"})
+    x = A["exprs"][0]
+    H = []
+    classes = [["SolverVSA", {}], ["SolverHybrid", {}], ["SolverHybrid", {"approximate_first": True}], ["SolverReplacement", {}]]
+    pairs = [(c, e) for c in A["cons"] for e in A["extras"] if e]
+    if tier == "quick":
+        import random
+        pairs = random.Random(seed + 13).sample(pairs, min(len(pairs), 60))
+    for cls, kw in classes:
+        for c, e in pairs:
+            for q in ("satisfiable", "eval"):
+                first = ["satisfiable", 0, e] if q == "satisfiable" else ["eval", 0, x, 9, e]
+                H.append([["new", cls, kw], ["add", 0, [c]], first, ["satisfiable", 0, []], ["eval", 0, x, 9, []],
+                          ["branch", 0], ["satisfiable", 1, []], ["max", 1, x, False, []]])
+    return H
+
+
 def directed_C18(tier, seed):
     """scripted pickle scenarios: replacements installed / removed around a round trip, tracked and untracked solvers
     pickled before their first query, every frontend class"""
@@ -182,9 +204,12 @@ SPECS = {
     "C12": dict(jobs=jobs_generic(COMPOSITE, "c12", 50, 500, W=2, alpha="xyz", multi=True),
                 clauses=QUERY_CLAUSES | TRUTH_CLAUSES | SPLIT_CLAUSES, level="model_checking", k1c=True),
     "C13": dict(jobs=lambda tier, seed: jobs_generic(REPL_EXACT, "c13", 40, 400, n=10, with_bool=True, pickle=True)(tier, seed)
-                + jobs_generic(APPROX, "c13a", 40, 400, n=4, alpha="approx")(tier, seed)
-                + jobs_generic([["SolverHybrid", {}]], "c13h", 40, 400, n=2, alpha="approx",
-                               cfg={"hybrid_exact": False})(tier, seed),
+                + jobs_generic(APPROX, "c13a", 40, 400, n=4, alpha="approx", multi=True)(tier, seed)
+                + jobs_generic([["SolverHybrid", {}]], "c13h", 40, 400, n=4, alpha="approx", multi=True,
+                               cfg={"hybrid_exact": False})(tier, seed)
+                + [{"mode": "list", "W": 3, "alpha": "approx", "histories": directed_C13(tier, seed)[(k // 2)::2], "probe": True,
+                    "tag": "c13d", "cfg": ({"hybrid_exact": False} if k % 2 else {}), "env": {"REUSE_Z3_SOLVER": "0"}}
+                   for k in range(4)],
                 clauses=QUERY_CLAUSES | TRUTH_CLAUSES | APPROX_CLAUSES, level="model_checking", k1r=True),
     "C14": dict(jobs=lambda tier, seed: jobs_generic(ALL_EXACT + [["SolverReplacementCacheless", {}]], "c14", 40, 400, n=12,
                                                      branchy=True)(tier, seed)
@@ -195,7 +220,7 @@ SPECS = {
                 + jobs_generic(COMPOSITE, "c15c", 40, 400, n=8, W=2, alpha="xyz", multi=True)(tier, seed)
                 + [{"mode": "list", "W": 3, "histories": directed_C15(tier, seed)[k::4], "probe": True, "tag": "c15d",
                     "env": {"REUSE_Z3_SOLVER": "1" if k == 3 else "0"}} for k in range(4)],
-                clauses=QUERY_CLAUSES | TRUTH_CLAUSES | SPLIT_CLAUSES, level="model_checking", k1c=True),
+                clauses=QUERY_CLAUSES | TRUTH_CLAUSES | SPLIT_CLAUSES, level="model_checking"),
     "C16": dict(jobs=lambda tier, seed: jobs_generic(TRACKED, "c16", 50, 500, n=10)(tier, seed)
                 + jobs_generic(TRACKED, "c16m", 50, 500, n=6, multi=True)(tier, seed)
                 + [{"mode": "list", "W": 3, "histories": directed_C16(tier, seed)[k::2], "probe": True, "tag": "c16d",
@@ -617,7 +642,14 @@ def truth_stream(R, pid, tier, seed):
             continue
         R.add_violation({"property": pid, "clause": clause, "tid": tr["tid"], "step": k, "event": describe(tr["ev"][k - 1]),
                          "vars": tr["vars"], "history": [describe(e) for e in tr["ev"][:k]]})
-    return st.get("calls", 0)
+    # floating point: truth claims about fpToIEEEBV(f) under fpEQ(f, c) on every frontend class (TraceFPSolve.tla)
+    fb, fstats = C.pipeline("w_fpsolve", [{"classes": classes + [["SolverHybrid", {"approximate_first": True}]]}], "TraceFPSolve.tla")
+    for _, ev, clause, _x in fb:
+        if clause in ("fp-is_true-overclaims", "fp-is_false-overclaims"):
+            R.add_violation({"property": pid, "clause": clause, "cls": ev["cls"], "kw": ev["kw"], "format": [ev["eb"], ev["sb"]],
+                             "constant": ev["c"], "spelling": ev["spell"], "is_true_raw_eq_poszero": ev["ist0"],
+                             "is_false_raw_eq_negzero": ev["isf1"]})
+    return st.get("calls", 0) + C.merge_stats(fstats)["events"]
 
 
 def describe(ev):
@@ -754,6 +786,18 @@ def check(pid, tier, regen=False):
                                      % (k1["depth"], k1["replayed"], k1["transition_histories"]))
         if k1["model_violation"]:
             R.notes.append("SPEC-DRIFT: refined model violates %s (counterexample replayed on the code)" % k1["model_violation"])
+    if pid == "C13":
+        # solution sets of floating-point equalities on the replacing / hybrid frontends (plain Solver as the control)
+        fb, fstats = C.pipeline("w_fpsolve", [{"classes": [["Solver", {}], ["SolverReplacement", {}], ["SolverHybrid", {}],
+                                                           ["SolverReplacementCacheless", {}], ["SolverComposite", {}]]}],
+                                "TraceFPSolve.tla")
+        R.coverage["fp_solution_set_events"] = C.merge_stats(fstats)["events"]
+        for _, ev, clause, _x in fb:
+            if clause in ("fp-is_true-overclaims", "fp-is_false-overclaims"):
+                continue                                  # C10's clauses
+            R.add_violation({"property": pid, "clause": clause, "cls": ev["cls"], "format": [ev["eb"], ev["sb"]], "constant": ev["c"],
+                             "spelling": ev["spell"], "eval": ev["vals"], "solution_negzero": ev["negz"],
+                             "solution_poszero": ev["poz"], "exc": ev["exc"]})
     if pid in ("C11", "C12", "C13"):
         # executions this framework did not script: the repository's own test-suite and wide-width histories, recorded
         # by harness/recorder.py and validated against spec/Knowledge.tla (no term semantics, any width)
